@@ -392,6 +392,13 @@ def callbackPutSteps : List Gen.BeaconNode.Step := [
   .branch "b.Round!=0" [.call "c.RLock()", .call "defer c.RUnlock()", .loop "range c.callbacks" [.bind "j,ok:=c.newJob[id]", .guard "!ok" [.exit "continue"], .call "j<-cbPair{cb:cb,b:b}"]] [],
   .exit "return nil"]
 
+/-- the repaired store (reports/cb_fix_1.diff): the same two stages — base `Put` first, its error returns before any
+dispatch; then every registered callback is handed the beacon — with a dispatch that never waits for a stream consumer -/
+def callbackPutStepsRepaired : List Gen.BeaconNode.Step := [
+  .guard "err:=c.Store.Put(ctx,b);err!=nil" [.exit "return err"],
+  .branch "b.Round!=0" [.call "c.Lock()", .call "defer c.Unlock()", .loop "range c.callbacks" [.bind "j,ok:=c.newJob[id]", .guard "!ok" [.exit "continue"], .bind "job:=cbPair{cb:cb,b:b}", .guard "!c.workers[id].stream" [.call "j<-job", .exit "continue"], .select [.selectCase "j<-job" [], .selectCase "default" [.call "c.stopWorker(id,true)", .call "delete(c.callbacks,id)"]]]] [],
+  .exit "return nil"]
+
 /-! ### memdb start-up: `storeCurrentFromPeerNetwork` -/
 
 /-- what goes into the still empty in-memory store, given the beacon the peers answered with: round 0 is replaced by the
